@@ -249,6 +249,7 @@ func directQiVerdicts(n *Node, arg int, fail func(class, witness, detail string)
 		}
 		return types.TxOut{Denomination: denom, Address: qiAccounts[0].Addr.Bytes()}
 	}
+	checkSig := true
 	process := func(tx *types.Transaction, first bool) error {
 		gp := new(types.GasPool).AddGas(ph.GasLimit())
 		var used uint64
@@ -256,7 +257,7 @@ func directQiVerdicts(n *Node, arg int, fail func(class, witness, detail string)
 		ucd := new(core.UtxosCreatedDeleted)
 		ucd.AddressOutpointsToAddMap = make(map[[20]byte][]*types.OutpointAndDenomination)
 		ucd.AddressOutpointsToRemoveMap = make(map[[20]byte][]*types.OutPoint)
-		_, _, _, err, _ := core.ProcessQiTx(tx, hc, true, first, ph, batch, db, gp, &used, signer, LocZone, *params.Blake3PowLocalChainConfig.ChainID, scaling, &rl, &pl, ucd, new(big.Int), new(big.Int), n.Cfg.IndexAddressUtxos)
+		_, _, _, err, _ := core.ProcessQiTx(tx, hc, checkSig, first, ph, batch, db, gp, &used, signer, LocZone, *params.Blake3PowLocalChainConfig.ChainID, scaling, &rl, &pl, ucd, new(big.Int), new(big.Int), n.Cfg.IndexAddressUtxos)
 		return err
 	}
 	a, b := spendable[arg%len(spendable)], spendable[(arg+1)%len(spendable)]
@@ -312,6 +313,27 @@ func directQiVerdicts(n *Node, arg int, fail func(class, witness, detail string)
 			}
 			return BuildQiTx([]Utxo{b, v}, []types.TxOut{freshOut([]Utxo{b, v}, arg, lower(b))}, nil, []*ecdsaKey{kb})
 		}, false},
+		{"merge-small-notes-into-larger", func() (*types.Transaction, error) {
+			// k notes of one denomination combined into one note of the next denomination (worth exactly or less than the k notes);
+			// refused for every Qi transaction but the first of a block
+			if chainTx == nil {
+				return nil, fmt.Errorf("would be the first Qi transaction")
+			}
+			byDenom := map[uint8][]Utxo{}
+			for _, u := range spendable {
+				if u.Key() != a.Key() {
+					byDenom[u.Entry.Denomination] = append(byDenom[u.Entry.Denomination], u)
+				}
+			}
+			for d := uint8(0); int(d) < types.MaxDenomination; d++ {
+				k := int(new(big.Int).Div(types.Denominations[d+1], types.Denominations[d]).Int64())
+				if k <= 6 && len(byDenom[d]) >= k+1 { // one note more than needed: it pays the fee
+					ins := byDenom[d][:k+1]
+					return BuildQiTx(ins, []types.TxOut{freshOut(ins, arg, d+1)}, nil, nil)
+				}
+			}
+			return nil, fmt.Errorf("no k notes of one denomination")
+		}, false},
 		{"output-to-in-zone-quai-address", func() (*types.Transaction, error) {
 			// a plain payment (no conversion data) whose payee is a Quai-ledger address of this zone: no UTXO may be created for it
 			return BuildQiTx([]Utxo{b}, []types.TxOut{{Denomination: lower(b), Address: quaiAccounts[arg%4].Addr.Bytes()}}, nil, nil)
@@ -353,6 +375,22 @@ func directQiVerdicts(n *Node, arg int, fail func(class, witness, detail string)
 			return
 		}
 		perr := process(tx, len(acceptedSoFar) == 0)
+		if c.name == "merge-small-notes-into-larger" || c.name == "dup-outpoint-in-one-tx" || c.name == "outputs-exceed-inputs" || c.name == "output-to-in-zone-quai-address" || c.name == "locked-input" {
+			// the verdict may not depend on whether the node has the transaction in its sender cache (signature check skipped)
+			if freshBatch() {
+				checkSig = false
+				warm := process(tx, len(acceptedSoFar) == 0)
+				checkSig = true
+				if (warm == nil) != (perr == nil) {
+					fail("direct-verdict", "case="+c.name+" verdict-depends-on-sender-cache", fmt.Sprintf("ProcessQiTx on [%s]: with the signature check %v, with the transaction in the sender cache (signature check skipped) %v", c.name, perr, warm))
+					return
+				}
+				if !freshBatch() {
+					return
+				}
+				perr = process(tx, len(acceptedSoFar) == 0)
+			}
+		}
 		if perr == nil {
 			acceptedSoFar = append(acceptedSoFar, tx)
 		}
